@@ -180,7 +180,10 @@ func Generate(c *core.Ctx, p Plan, workers int) (*Gen, error) {
 	if res.Violation {
 		return nil, fmt.Errorf("MODEL-MISMATCH candidate: the composed code-shaped spec violates its property layer in plan %s (%s)\n%s", p.Name, res.ViolatedWhat, res.Tail(80))
 	}
-	if res.TimedOut || res.Errored != "" || !res.Completed || res.Distinct == 0 {
+	if res.Errored != "" {
+		return nil, fmt.Errorf("TLC evaluation error on plan %s (a composed module changed? adapt specs/GnosisE2E*.tla): %s", p.Name, evalError(res.Out))
+	}
+	if res.TimedOut || !res.Completed || res.Distinct == 0 {
 		return nil, fmt.Errorf("TLC did not complete on plan %s: %s\n%s", p.Name, res.Errored, res.Tail(25))
 	}
 	g := &Gen{Plan: p, States: res.States, Distinct: res.Distinct, Wall: res.Wall.Seconds()}
